@@ -116,6 +116,7 @@ func genIndifferentCfg(r *R) Cfg {
 }
 
 func (c09) Gen(r *R, tier string) any {
+	observeUnknownAPI = false
 	p := &C09Plan{A: genObservableCfg(r), B: genObservableCfg(r), StartZero: r.P(0.5), Probe: r.Intn(12)}
 	if r.P(0.2) {
 		// B (never both) shows nothing of debug mode: the state must survive the stay there
@@ -159,13 +160,14 @@ func (p *C09Plan) key() string {
 func isOK(status int) bool { return status >= 200 && status <= 299 }
 
 func (c09) Exec(plan any, c *Ctx) *Violation {
+	observeUnknownAPI = false
 	p := plan.(*C09Plan)
 	// model state
 	configured, debug := !p.StartZero, false
 	cur := p.A
 	var m *cors.Middleware
 	if p.StartZero {
-		m = new(cors.Middleware)
+		m = zeroMW()
 	} else {
 		var err error
 		var pan any
